@@ -128,7 +128,38 @@ def role_normalised_reader(fn: FuncInfo) -> ast.AST:
     if id(fn.node) in _NORMALISED:
         return _NORMALISED[id(fn.node)]
     from gxstat.srcmodel import set_parents
-    node = clone(fn.node)
+    # the function's own closures (`def accept(): ...`, `def reject_out_of_range(): ...`) are read written out at their call sites
+    from gxstat.inline import inline_local_functions
+    try:
+        pre = clone(fn.node)
+        set_parents(pre)
+        nested_names = {n.name for n in pre.body if isinstance(n, ast.FunctionDef)}
+        # `helper(f(x))` as a statement is `_a = f(x); helper(_a)`: the argument is evaluated first either way (exact), and the call
+        # becomes one the inliner can write out
+        k_ = 0
+        for owner in list(ast.walk(pre)):
+            for fld in ('body', 'orelse', 'finalbody'):
+                blk = getattr(owner, fld, None)
+                if not isinstance(blk, list):
+                    continue
+                i_ = 0
+                while i_ < len(blk):
+                    st_ = blk[i_]
+                    i_ += 1
+                    if isinstance(st_, ast.Expr) and isinstance(st_.value, ast.Call) and isinstance(st_.value.func, ast.Name) and \
+                            st_.value.func.id in nested_names and not st_.value.keywords:
+                        for ai, a_ in enumerate(st_.value.args):
+                            if not isinstance(a_, (ast.Name, ast.Constant, ast.Attribute)):
+                                k_ += 1
+                                tmp = f'_hoisted_arg_{k_}'
+                                blk.insert(i_ - 1, ast.copy_location(ast.Assign(targets=[ast.Name(id=tmp, ctx=ast.Store())], value=a_), st_))
+                                st_.value.args[ai] = ast.copy_location(ast.Name(id=tmp, ctx=ast.Load()), a_)
+                                i_ += 1
+        ast.fix_missing_locations(pre)
+        set_parents(pre)
+        node = clone(inline_local_functions(pre))
+    except Exception:
+        node = clone(fn.node)
     used = {n.id for n in ast.walk(node) if isinstance(n, ast.Name)} | {a.arg for a in node.args.args}
 
     def rename(root: ast.AST, old: str, new: str) -> None:
